@@ -1,5 +1,5 @@
 """property -> rules"""
-from . import rules_dd, rules_bounds, rules_limits
+from . import rules_dd, rules_bounds, rules_limits, rules_tools
 
 CLANG = "clang 14 parser, constant evaluator and CFG builder (via tools/h4x.cc)"
 CDB = "compile flags taken from ninja -t compdb of /repo/_build (or a throw-away cmake configure)"
@@ -56,6 +56,16 @@ PROPS["C02"] = {
 
 PROPS["C20"] = {
     "rules": [rules_limits.rule_F9a, rules_limits.rule_F9b, rules_limits.rule_F9c],
+    "level": "other",
+    "explanation": "TODO",
+    "rule_text": "TODO",
+    "trusted": [CLANG, CDB],
+    "assumptions": [],
+    "level_text": "TODO", "level_note": "TODO", "technique": "TODO",
+}
+
+PROPS["C19"] = {
+    "rules": [rules_tools.rule_nt_switches, rules_tools.rule_truncating_difference, rules_tools.rule_count_propagation],
     "level": "other",
     "explanation": "TODO",
     "rule_text": "TODO",
